@@ -1,4 +1,4 @@
-import Kolibrie.Lemmas.Engine
+import Kolibrie.Lemmas.InputIndep
 /-!
 # C02 — query answers do not depend on the plan the optimizer happens to choose
 
@@ -14,12 +14,19 @@ Proved here, for **all** databases, contexts, plans and solution sequences:
 * if the right operand of a join is input-independent, the bind join, the hash join and the nested-loop join
   return the same multiset (`join_algorithms_agree`).
 
-/- FULL (not yet proved; the correspondence run checks it against the algebra on generated inputs):
+* **input independence** (`exec_input_independent`): on the safe fragment (every operator the lowering produces
+  except BIND; each FILTER's variables bound by its own input) executing a plan with incoming solutions equals
+  joining them with the plan's own solutions — for scans (all graph scopes, merged default graph, graph
+  variables), star joins, unions, GRAPH (fixed and variable), filters, VALUES, sub-selects and all three joins;
+* hence the bind join, the hash join and the nested-loop join all compute the join of their operands' own
+  solutions (`join_algorithms_agree_safe`), and the order of the operands is irrelevant (`join_order_irrelevant`).
+
+/- FULL (checked by the correspondence run against the algebra on generated inputs; not yet proved):
    theorem optimizer_sound : wellScoped [] pat = true →
        ∀ algs, exec db (lower .dflt algs pat).1 ctx [[]] ~ sem db ctx pat
-   Missing: input independence of scans and of joins needs associativity/commutativity of `mergeRows` on
-   canonical (sorted) rows; the side condition `wellScoped` is the decidable predicate of `Spec/Algebra.lean`
-   and is reported by the driver in the `H` section. -/
+   Missing: the induction over the lowering (`lower`/`lowerGroup` vs `sem`/`semGroup`) that instantiates
+   `exec_input_independent` at every join node, BIND (needs freshness of the target among incoming variables),
+   and the bridge from the decidable `wellScoped` to the semantic side condition of `Safe`. -/
 -/
 namespace Kolibrie.Props.C02
 open Kolibrie.Engine List
@@ -66,7 +73,42 @@ theorem leaves_input_independent (db : DB) (vars : List Var) (rows : List (List 
     (i : Plan) (spec : Spec) :
     InputIndep db .unit ∧ InputIndep db .empty := ⟨inputIndep_unit db, inputIndep_empty db⟩
 
+/-- **Input independence** on the safe fragment, for every database, well-formed context (visible named graphs
+    form a set) and canonical incoming solution sequence -/
+theorem exec_input_independent (db : DB) (p : Plan) (hs : Safe db p) (ctx : Ctx) (hc : ctx.WF)
+    (inc : List Row) (hi : AllWF inc) : exec db p ctx inc ~ nlJoin inc (exec db p ctx [[]]) :=
+  exec_input_join db p hs ctx hc inc hi
+
+/-- the three join executors compute the same multiset: the join of the operands' own solutions -/
+theorem join_algorithms_agree_safe (db : DB) (l r : Plan) (hl : Safe db l) (hr : Safe db r) (ctx : Ctx)
+    (hc : ctx.WF) :
+    exec db (.bindJoin l r) ctx [[]] ~ nlJoin (exec db l ctx [[]]) (exec db r ctx [[]]) ∧
+    exec db (.hashJoin l r) ctx [[]] ~ nlJoin (exec db l ctx [[]]) (exec db r ctx [[]]) ∧
+    exec db (.nlJoin l r) ctx [[]] ~ nlJoin (exec db l ctx [[]]) (exec db r ctx [[]]) :=
+  joins_agree_safe db l r hl hr ctx hc
+
+/-- **the textual order of two operands never changes the answer** (with any of the join algorithms) -/
+theorem join_order_irrelevant (db : DB) (l r : Plan) (hl : Safe db l) (hr : Safe db r) (ctx : Ctx) (hc : ctx.WF) :
+    exec db (.bindJoin l r) ctx [[]] ~ exec db (.bindJoin r l) ctx [[]] := by
+  have h1 := (joins_agree_safe db l r hl hr ctx hc).1
+  have h2 := (joins_agree_safe db r l hr hl ctx hc).1
+  exact h1.trans ((nlJoin_comm _ _ (exec_wf db l ctx _ allWF_unit) (exec_wf db r ctx _ allWF_unit)).trans h2.symm)
+
+/-- a star join is the bind-join chain of its scans -/
+theorem star_is_scan_chain (db : DB) (ctx : Ctx) (p : QPat) (ps : List QPat) (inc : List Row) :
+    exec db (.star (p :: ps)) ctx inc = exec db (.star ps) ctx (exec db (.scan { p with g := .dflt }) ctx inc) := by
+  rw [exec_star, exec_star, exec_scan]; rfl
+
+/-- dataset views built by the engine are well formed -/
+theorem views_wellformed (db : DB) (d : List (Option Val)) (n : List Val) (a : Option Val) :
+    (⟨View.mk' d n, a⟩ : Ctx).WF ∧ (⟨View.fromDb db, a⟩ : Ctx).WF :=
+  ⟨nodup_eraseDups _, nodup_eraseDups _⟩
+
 /-! non-vacuity -/
+example (db : DB) : Safe db (.bindJoin (.scan ⟨.var 0, .const "p", .var 1, .dflt⟩)
+    (.union (.scan ⟨.var 0, .const "q", .var 2, .var 3⟩) (.values [1] [[some "a"], [none]]))) := by
+  simp [Safe]
+
 example : hashJoin [[(0, "a"), (1, "b")], [(1, "c")]] [[(0, "a")], [(2, "z")], [(0, "q")]] =
     [[(0, "a"), (1, "b")], [(0, "a"), (1, "b"), (2, "z")], [(0, "a"), (1, "c")], [(1, "c"), (2, "z")], [(0, "q"), (1, "c")]] := by
   decide
